@@ -125,13 +125,13 @@ Record PxSpec (n : nat) (px : circuit) (xs ys rs : list label) : Prop := mkPxSpe
   px_xor : forall i x y r, nth_error xs i = Some x -> nth_error ys i = Some y -> nth_error rs i = Some r ->
                            dget (gates px) r = Some (mkGate XOR [x; y]) }.
 
-Theorem generate_pairwise_xor_spec n px :
-  generate_pairwise_xor n = Ok px -> exists xs ys rs, PxSpec n px xs ys rs.
+Theorem generate_pairwise_xor_spec_labels n px :
+  generate_pairwise_xor n = Ok px ->
+  PxSpec n px (generate_labels "x" n) (generate_labels "y" n) (generate_labels "xor" n).
 Proof.
   unfold generate_pairwise_xor. intros H. binv H c1 H1. binv H c2 H2.
   set (xs := generate_labels "x" n) in *. set (ys := generate_labels "y" n) in *.
   set (rs := generate_labels "xor" n) in *.
-  exists xs, ys, rs.
   pose proof (add_inputs_wf _ _ _ WF_empty H1) as W1. pose proof (add_inputs_wf _ _ _ W1 H2) as W2.
   destruct (add_inputs_spec _ _ _ H1) as (I1 & O1 & _ & _).
   destruct (add_inputs_spec _ _ _ H2) as (I2 & O2 & _ & _).
@@ -177,3 +177,7 @@ Proof.
     assert (x' = x) by congruence. assert (y' = y) by congruence. assert (r' = r) by congruence. subst x' y' r'.
     eapply nth_error_In; exact Ht.
 Qed.
+
+Theorem generate_pairwise_xor_spec n px :
+  generate_pairwise_xor n = Ok px -> exists xs ys rs, PxSpec n px xs ys rs.
+Proof. intros H. eexists; eexists; eexists. apply generate_pairwise_xor_spec_labels, H. Qed.
